@@ -7,7 +7,7 @@ export GOFLAGS=-mod=mod GOPROXY=off GOSUMDB=off GOTOOLCHAIN=local
 V="$(cd "$(dirname "$0")/.." && pwd)"
 SRC="${SELFTEST_SRC:-/repo}"
 BIN="${PVBIN:-$V/bin/plushvc}"
-props="$@"; [ -z "$props" ] && props=$( (ls "$V/selftest"; ls "$V/seeded") | grep '^C' | sort -u)
+props="$@"; [ -z "$props" ] && props=$( (ls "$V/selftest"; ls "$V/seeded") | grep -E '^C[0-9][0-9]$' | sort -u)
 fail=0
 for p in $props; do
   # the corpus of a property = its hand-made patches + the independently seeded change (section 14)
